@@ -175,16 +175,22 @@ func cmdCheck(args []string) int {
 			x.NoPanic = hs.NoPanic
 			x.Thorough = thorough
 			x.Expect = hs.Reach
-			for from, to := range hf.Overrides {
-				tf := pkg.Func(to)
-				if tf == nil {
-					hr.Err = "override target not found: " + to
-					break
+			// overrides and skip-init directives are shared by all harness files of the property in the same package
+			for _, other := range hfs {
+				if other.PkgPath != hf.PkgPath {
+					continue
 				}
-				x.SetOverride(from, tf)
-			}
-			for _, p := range hf.SkipInit {
-				x.SkipInit(p)
+				for from, to := range other.Overrides {
+					tf := pkg.Func(to)
+					if tf == nil {
+						hr.Err = "override target not found: " + to
+						break
+					}
+					x.SetOverride(from, tf)
+				}
+				for _, p := range other.SkipInit {
+					x.SkipInit(p)
+				}
 			}
 			if hr.Err != "" {
 				continue
